@@ -8,6 +8,8 @@ import Chewing.Proofs.TrieSpec
 import Chewing.Proofs.TrieDoc
 import Chewing.Proofs.TrieFuzzy
 import Chewing.Proofs.TrieOrder
+import Chewing.Proofs.TrieEntries
+import Chewing.Proofs.TrieConforms
 /-!
 # C11 — A trie dictionary file returns exactly what was put in, in the documented order
 
@@ -50,6 +52,34 @@ def GroupsOf (es : List Entry) (P : List Nat → Prop) (groups : List (List Nat 
 
 /-- what a reader returns for a group: the leaf in its written order -/
 def leafOut (g : List Nat × List Phrase) : List Phrase := sortLeaf g.2
+
+/-- **the full statement** (on the model; tied to the code by the correspondence run).  For all
+    metadata and every finite sequence of inserts:
+    * inside the format's limits writing succeeds (outside it fails loudly, never silently);
+    * a successfully written file opens, with identical metadata;
+    * an exact lookup of any key returns exactly the phrases inserted for it (frequencies and
+      timestamps included, a re-inserted phrase having replaced the earlier one), in the documented
+      order; nothing for a key never inserted;
+    * a fuzzy prefix lookup returns, leaf by leaf, exactly the inserted keys of the same length whose
+      every syllable begins with the corresponding partial syllable, each once;
+    * enumeration yields exactly the inserted set, each (key, phrase) once;
+    * the bytes conform to the documented format.
+    (`deterministic` — equal input, identical bytes — is the functionality of `write`.) -/
+def C11_full : Prop :=
+  ∀ (info : Info) (es : List Entry), ValidInput info es →
+    ((TrieCodec.Builder.ofEntries info es).Fits → (TrieCodec.Builder.ofEntries info es).write.isSome = true) ∧
+    ∀ bytes, (TrieCodec.Builder.ofEntries info es).write = some bytes →
+      ∃ t, openTrie bytes = some t ∧
+        about t = info ∧
+        (∀ k, ValidKey k →
+          lookupAll t k .standard = sortLeaf ((inserted es k).getD []) ∧
+          OrderDocumented ((inserted es k).getD []) (lookupAll t k .standard)) ∧
+        (∀ k, ValidKey k → inserted es k = none → lookupAll t k .standard = []) ∧
+        (∀ q, ValidKey q → ∃ groups, GroupsOf es (fun k => fuzzyMatch k q = true) groups ∧
+          lookupAll t q .fuzzyPartialPrefix = groups.flatMap leafOut) ∧
+        (∃ groups, GroupsOf es (fun _ => True) groups ∧
+          entries t = .ok (groups.flatMap fun g => (leafOut g).map fun p => (g.1, p))) ∧
+        Conforms bytes
 
 /-! ## stage A: DER shapes, phrase records, determinism, builder semantics -/
 
@@ -222,5 +252,92 @@ theorem fuzzyMatch_iff (k q : List Nat) :
         | succ i => exact h3 i s' p' (by simpa using hs) (by simpa using hp)
       · rintro ⟨h1, h2⟩
         exact ⟨h2 0 s p rfl rfl, h1, fun i s' p' hs hp => h2 (i + 1) s' p' (by simpa using hs) (by simpa using hp)⟩
+
+
+/-- `entries_correct`: enumeration yields every inserted key once, with exactly its phrases -/
+theorem entries_correct (info : Info) (es : List Entry) (hv : ValidInput info es) (bytes : Bytes)
+    (hw : (TrieCodec.Builder.ofEntries info es).write = some bytes) :
+    ∃ t, openTrie bytes = some t ∧
+      ∃ groups, GroupsOf es (fun _ => True) groups ∧
+        entries t = .ok (groups.flatMap fun g => (leafOut g).map fun p => (g.1, p)) := by
+  have hwf := WF_ofEntries info es hv.2
+  have hi : ValidInfo (TrieCodec.Builder.ofEntries info es).info := by rw [info_ofEntries]; exact hv.1
+  obtain ⟨recs, data, hbuf, _, hopen, hr, hd⟩ := openTrie_write _ hi bytes hw
+  have hlaid := TrieCodec.bfs_layout _ hwf recs data hbuf hr hd
+  have hcount := writeLoop_count _ _ _ _ _ _ _ hbuf
+  have hq : qsize [(TrieCodec.Builder.ofEntries info es).root] = (TrieCodec.Builder.ofEntries info es).root.size := by
+    simp [qsize]
+  rw [hq] at hcount
+  obtain ⟨groups, hperm, hent⟩ := entries_laid (info := (TrieCodec.Builder.ofEntries info es).info) hlaid
+    (root_pre _ hwf) (by simpa [TrieCodec.Builder.root] using hcount)
+  refine ⟨_, hopen, groups, ⟨?_, ?_⟩, hent⟩
+  · exact (hperm.map (·.1)).nodup_iff.mpr (nodeGroups_keys_nodup hwf.2)
+  · intro k ps
+    rw [hperm.mem_iff, mem_nodeGroups hwf.2]
+    have := find_ofEntries info es k
+    unfold TrieCodec.Builder.find at this
+    rw [this]
+    simp [inserted]
+
+/-- `conforms`: the written bytes are a `Document` of trie.asn1 (constants regenerated from the
+    file on every run: `format_constants`) whose index is the BFS layout of a tree -/
+theorem conforms (info : Info) (es : List Entry) (hv : ValidInput info es) (bytes : Bytes)
+    (hw : (TrieCodec.Builder.ofEntries info es).write = some bytes) : Conforms bytes := by
+  have hi : ValidInfo (TrieCodec.Builder.ofEntries info es).info := by rw [info_ofEntries]; exact hv.1
+  exact write_conforms _ (WF_ofEntries info es hv.2) hi bytes hw
+
+/-- the ASN.1 module, the constants of trie.rs and the model agree (magic, version, field lists,
+    record size, value ranges) -/
+theorem format_constants : FormatConstantsAgree := format_constants_agree
+
+/-- in the index the children of a node are strictly ascending by syllable (after the leaf) -/
+theorem children_ascending {sub : Forest} (hw : sub.WF) :
+    (sortBy sylLt sub.toItems).Pairwise (fun a b => a.syl < b.syl) := sorted_kids_ascending hw
+
+/-- **C11** -/
+theorem C11 : C11_full := by
+  intro info es hv
+  refine ⟨writes_within_limits _, ?_⟩
+  intro bytes hw
+  have hwf := WF_ofEntries info es hv.2
+  have hi : ValidInfo (TrieCodec.Builder.ofEntries info es).info := by rw [info_ofEntries]; exact hv.1
+  obtain ⟨t, hopen, habout, _⟩ := read_write _ hwf hi bytes hw
+  obtain ⟨t1, ho1, hl⟩ := lookup_correct info es hv bytes hw
+  obtain ⟨t2, ho2, hf⟩ := fuzzy_correct info es hv bytes hw
+  obtain ⟨t3, ho3, he⟩ := entries_correct info es hv bytes hw
+  have e1 : t1 = t := Option.some.inj (ho1.symm.trans hopen)
+  have e2 : t2 = t := Option.some.inj (ho2.symm.trans hopen)
+  have e3 : t3 = t := Option.some.inj (ho3.symm.trans hopen)
+  rw [e1] at hl
+  rw [e2] at hf
+  rw [e3] at he
+  refine ⟨t, hopen, by rw [habout, info_ofEntries], ?_, ?_, hf, he, conforms info es hv bytes hw⟩
+  · intro k hk
+    refine ⟨hl k hk, ?_⟩
+    rw [hl k hk]
+    exact order_documented _
+  · intro k hk hn
+    rw [hl k hk, hn]
+    rfl
+
+/-! ## non-vacuity -/
+
+/-- a concrete input: two keys, one a prefix of the other, a re-insert, a timestamp -/
+def sampleEntries : List Entry :=
+  [([10268], { text := [28204], freq := 1 }), ([10268, 8708], { text := [28204, 35430], freq := 100, lastUsed := some 5 }),
+   ([10268], { text := [20874], freq := 70000 }), ([10268], { text := [28204], freq := 9 })]
+
+example : ValidInput {} sampleEntries := by
+  refine ⟨by unfold ValidInfo; decide, ?_⟩
+  intro e he
+  simp only [sampleEntries, List.mem_cons, List.not_mem_nil, or_false] at he
+  rcases he with rfl | rfl | rfl | rfl <;> exact ⟨by decide, by decide⟩
+
+example : ((TrieCodec.Builder.ofEntries {} sampleEntries).write).isSome = true := by decide
+
+example : ValidKey [10268, 8708] := by unfold ValidKey; decide
+
+example : inserted sampleEntries [10268] = some [{ text := [28204], freq := 9 }, { text := [20874], freq := 70000 }] := by
+  decide
 
 end Chewing.C11
